@@ -23,7 +23,11 @@ Tie and oracle, on the REAL code:
     controls with Self last), called in both orders with instances of either class; equal relative forward references
     (tuple['Node', int], list['Node'], …) asked through is_bearable / die_if_unbearable / a decorated function from two
     or three caller scopes that each define their OWN class `Node` (a function's local class, a module's global class),
-    in both orders. The table lock-step covers them: the model (askBearC, treeCacheable over the visiting order of the
+    in both orders; a module-level user generic `class GList(list[T])` with a late-bound alias `IntList = GList[int]` named by
+    the STRING hints of one decorated callable both for an instance check and under `type[...]` (`def f(x: 'IntList', y:
+    'type[IntList]')`, `'tuple[IntList, type[IntList]]'`, `'IntList | type[IntList]'`: one forward-reference proxy serves both),
+    called with passing arguments first and a violating `GList(['a'])` afterwards and in the opposite order, with and without
+    clear_caches() in between (fresh-interpreter differential only). The table lock-step covers the context-relative ones: the model (askBearC, treeCacheable over the visiting order of the
     hint's tree) predicts that no checker / expression for such a hint is ever stored.
 Histories are adversarial by construction (look-alikes under ==/hash, same-named class redefinition with and
 without @beartype, unhashable hints churned to force id() reuse, clear_caches() followed by new wrappers, forward
@@ -47,8 +51,8 @@ from ..extract import memo as xmemo
 MODULE = 'BearVerif.Props.C14'
 PROP_FILE = LEAN / 'BearVerif/Props/C14.lean'
 
-WORLD_OPS = ('defclass', 'deffunc', 'defself', 'defscope')
-DEF_OPS = ('defclass', 'defself', 'defscope')          # operations that create the classes an expression can name
+WORLD_OPS = ('defclass', 'deffunc', 'defself', 'defscope', 'defgen')
+DEF_OPS = ('defclass', 'defself', 'defscope', 'defgen')          # operations that create the classes an expression can name
 WORKERS = 16
 
 # ------------------------------------------------------------------------------------------------------------
@@ -120,13 +124,14 @@ def run_items(items: list[dict]) -> list[dict]:
     return _POOL.run(items)
 
 
-CLASS_NAMES = ('Foo', 'Bar', 'Later', 'Alpha', 'Beta', 'Gamma', 'ScA', 'ScB', 'ScC')
+CLASS_NAMES = ('Foo', 'Bar', 'Later', 'Alpha', 'Beta', 'Gamma', 'ScA', 'ScB', 'ScC', 'GList')
+GENERIC, ALIAS = 'GList', 'IntList'        # `class GList(list[T])`; `IntList = GList[int]` (both created by a defgen)
 
 
 def names_in(e) -> set:
     """class names an operation (or expression) refers to"""
     if isinstance(e, str):
-        return {n for n in CLASS_NAMES if n in e}
+        return {n for n in CLASS_NAMES if n in e} | ({GENERIC} if ALIAS in e else set())
     if isinstance(e, (list, tuple)):
         out = set()
         for x in e:
@@ -140,13 +145,13 @@ def fresh_ops(ops: list, i: int) -> list:
     generation of the classes it names, the function it calls and the classes that function's hint names), in
     their original order, then the operation itself. Nothing else of the history exists for it."""
     probe = ops[i]
-    need = names_in(probe[1:]) if probe[0] != 'deffunc' else names_in(probe[2])
+    need = names_in(probe[1:]) if probe[0] != 'deffunc' else names_in(probe[2:])
     funcs = set()
     if probe[0] == 'call':
         funcs.add(probe[1])
         for op in ops[:i]:
             if op[0] == 'deffunc' and op[1] == probe[1]:
-                need |= names_in(op[2])
+                need |= names_in(op[2:])
     world = [op for op in ops[:i] if (op[0] in DEF_OPS and op[1] in need) or (op[0] == 'deffunc' and op[1] in funcs)]
     return world + [probe]
 
@@ -380,6 +385,46 @@ class Builder:
                 if r.random() < 0.5:
                     self.bear(['listref', f'c14mod.{name}'], ['list', ['inst', name, -1]], api='is_bearable')
 
+    def frag_generic(self):
+        """a forward reference whose referent is a SUBSCRIPTED user generic (`IntList = GList[int]`, bound after the
+        decoration), named by one callable both for an instance check and under type[...]: the proxy of that callable
+        answers isinstance() through the hint (items checked) and issubclass() through the reduced type `GList`. Passing
+        calls first and an object that is a GList but not a GList[int] afterwards, and the opposite order, with and
+        without clear_caches() in between."""
+        r = self.rng
+        self.nf += 1
+        fn = f'f{self.nf}'
+        conf = r.choice([0, 0, 0, 2])
+        ints = r.choice([['glist', '1'], ['glist', '1', '2', '3'], ['glist']])
+        strs = r.choice([['glist', '"a"'], ['glist', '"a"'], ['glist', '"a"', '"b"']])
+        gcls = ['clsobj', GENERIC, -1]
+        shape = r.choice(['two', 'two', 'tuple', 'tuple', 'union'])
+        if shape == 'two':
+            self.ops.append(['deffunc', fn, f"'{ALIAS}'", conf, f"'type[{ALIAS}]'"])
+            good, bad, others = [ints, gcls], [strs, gcls], [[ints, '1'], [['list', '1'], gcls]]
+        elif shape == 'tuple':
+            self.ops.append(['deffunc', fn, f"'tuple[{ALIAS}, type[{ALIAS}]]'", conf])
+            good, bad, others = [['tuple', ints, gcls]], [['tuple', strs, gcls]], [[['tuple', ints, '1']], [['tuple', gcls, ints]]]
+        else:
+            self.ops.append(['deffunc', fn, f"'{ALIAS} | type[{ALIAS}]'", conf])
+            good, bad, others = [r.choice([gcls, gcls, ints])], [strs], [['1'], [['list', '1']]]
+        self.funcs[fn] = GENERIC
+        if GENERIC not in self.gens:
+            if r.random() < 0.4:
+                # fails: the alias is not bound yet (so neither is the generic: plain objects only)
+                self.ops.append(['call', fn] + {'two': ['1', '1'], 'tuple': ['(1, 1)'], 'union': ['1']}[shape])
+            self.ops.append(['defgen', GENERIC])
+            self.gens[GENERIC] = 1
+        G, B, C = 'good', 'bad', 'clear'
+        seq = list(r.choice([[G, B], [G, B, G, B], [B, G, B], [G, C, B], [G, B, C, B], [B, G, C, G, B], [G, C, G, B], [B, C, G, B, C, B]]))
+        for _ in range(r.randint(0, 3)):
+            seq.insert(r.randrange(len(seq) + 1), r.choice([G, B, B, 'other', C]))
+        for x in seq:
+            if x == C:
+                self.ops.append(['clear'])
+            else:
+                self.ops.append(['call', fn] + (good if x == G else bad if x == B else r.choice(others)))
+
     def defself(self, name, hintsrc, conf=0):
         self.ops.append(['defself', name, hintsrc, conf])
         self.gens[name] = self.gens.get(name, 0) + 1
@@ -498,7 +543,7 @@ def gen_table_history(rng: random.Random) -> list:
 
 
 FRAGS = [('redefine', 4), ('churn', 3), ('hint_churn', 2), ('clear_ids', 3), ('lookalike', 3), ('conf', 1), ('fwdref', 3),
-         ('self', 3), ('scope', 3)]
+         ('self', 3), ('scope', 3), ('generic', 3)]
 
 
 def gen_history(rng: random.Random) -> list:
@@ -587,6 +632,13 @@ def classify(ops: list, stats: dict) -> str:
         return 'C14:sbear:' + shape
     if probe[0] == 'call':
         target = next((op for op in ops if op[0] == 'deffunc' and op[1] == probe[1]), None)
+        if target is not None and mentions(target[2:], ALIAS):
+            # a forward reference to a subscripted user generic: the proxy holds the hint (GList[int]) and, once a type[...]
+            # check of the same proxy has passed, the reduced type (GList); an instance check must go on using the former
+            earlier = [op for op in ops[:-1] if op[0] == 'call' and op[1] == probe[1]]
+            if earlier and mentions(target[2:], 'type['):
+                return 'C14:fwdref-referent:subscripted-generic-alias-after-type-check'
+            return 'C14:fwdref-referent:subscripted-generic-alias:' + shape
         if target is not None and "'" in target[2] and any(n in target[2] for n in redefined):
             name = next(n for n in redefined if n in target[2])
             idx = [j for j, op in enumerate(ops) if op[0] == 'defclass' and op[1] == name]
@@ -657,6 +709,8 @@ def render(op) -> str:
             return h(['cls', e[1], e[2]]) + '()'
         if k == 'clsobj':
             return h(['cls', e[1], e[2]])
+        if k == 'glist':
+            return f'{GENERIC}([' + ', '.join(o(x) for x in e[1:]) + '])'
         if k == 'list':
             return '[' + ', '.join(o(x) for x in e[1:]) + ']'
         if k == 'tuple':
@@ -670,7 +724,10 @@ def render(op) -> str:
     if k == 'defclass':
         return ('@beartype ' if op[2] else '') + f'class {op[1]}: pass'
     if k == 'deffunc':
-        return f'@beartype(conf=C{op[3] if len(op) > 3 else 0}) def {op[1]}(x: {op[2]}) -> int'
+        return (f'@beartype(conf=C{op[3] if len(op) > 3 else 0}) def {op[1]}(x: {op[2]}' +
+                (f', y: {op[4]}' if len(op) > 4 else '') + ') -> int')
+    if k == 'defgen':
+        return f'class {op[1]}(list[T]): pass; {ALIAS} = {op[1]}[int]'
     if k == 'bear':
         c = f', conf=C{op[4]}' if len(op) > 4 and op[4] else ''
         if op[1] == 'decor':
@@ -685,7 +742,7 @@ def render(op) -> str:
     if k == 'theq':
         return f'TypeHint({h(op[1])}) == TypeHint({h(op[2])})'
     if k == 'call':
-        return f'{op[1]}({o(op[2])})'
+        return f'{op[1]}(' + ', '.join(o(x) for x in op[2:]) + ')'
     if k == 'defself':
         c = f'(conf=C{op[3]})' if len(op) > 3 and op[3] else ''
         return f'@beartype{c} class {op[1]}: def m(self, x: {op[2]}) -> int; def r(self, x) -> {op[2]}'
@@ -897,6 +954,21 @@ CORPUS = [
      ['sbear', 'ScB', 'decor', ['tuple', REF, 'int'], ['tuple', ['inst', 'ScB', -1], '1'], 0],
      ['sbear', 'ScA', 'decor', ['tuple', REF, 'int'], ['tuple', ['inst', 'ScA', -1], '1'], 0],
      ['sbear', 'ScA', 'decor', ['tuple', REF, 'int'], ['tuple', ['inst', 'ScB', -1], '1'], 0]],
+    # forward reference to a subscripted user generic, instance check and type[...] check through ONE proxy: passing
+    # calls first, a GList that is not a GList[int] afterwards; the opposite order; clear_caches() in between
+    [['deffunc', 'f1', "'IntList'", 0, "'type[IntList]'"], ['defgen', 'GList'],
+     ['call', 'f1', ['glist', '1', '2'], ['clsobj', 'GList', -1]], ['call', 'f1', ['glist', '"a"'], ['clsobj', 'GList', -1]],
+     ['clear'], ['call', 'f1', ['glist', '"a"'], ['clsobj', 'GList', -1]], ['call', 'f1', ['glist', '1', '2'], ['clsobj', 'GList', -1]],
+     ['call', 'f1', ['glist', '"a"'], ['clsobj', 'GList', -1]]],
+    [['deffunc', 'f1', "'IntList'", 0, "'type[IntList]'"], ['defgen', 'GList'],
+     ['call', 'f1', ['glist', '"a"'], ['clsobj', 'GList', -1]], ['call', 'f1', ['glist', '1', '2'], ['clsobj', 'GList', -1]],
+     ['call', 'f1', ['glist', '"a"'], ['clsobj', 'GList', -1]]],
+    [['deffunc', 'f1', "'tuple[IntList, type[IntList]]'", 0], ['defgen', 'GList'],
+     ['call', 'f1', ['tuple', ['glist', '1'], ['clsobj', 'GList', -1]]], ['call', 'f1', ['tuple', ['glist', '"a"'], ['clsobj', 'GList', -1]]],
+     ['clear'], ['call', 'f1', ['tuple', ['glist', '"a"'], ['clsobj', 'GList', -1]]]],
+    [['deffunc', 'f1', "'tuple[IntList, type[IntList]]'", 2], ['defgen', 'GList'],
+     ['call', 'f1', ['tuple', ['glist', '"a"'], ['clsobj', 'GList', -1]]], ['call', 'f1', ['tuple', ['glist', '1'], ['clsobj', 'GList', -1]]],
+     ['call', 'f1', ['tuple', ['glist', '"a"'], ['clsobj', 'GList', -1]]]],
     # configurations are part of the key
     [['bear', 'is_bearable', 'float', '1', 0], ['bear', 'is_bearable', 'float', '1', 1], ['bear', 'is_bearable', 'float', '1', 0],
      ['bear', 'die_if_unbearable', ['list', 'float'], '[1]', 1], ['bear', 'die_if_unbearable', ['list', 'float'], '[1]', 0]],
@@ -917,7 +989,9 @@ def explore(ck: Check, n: int, seed: int, n_table: int, n_truth: int, shrink_sec
                       '(re)definition with or without @beartype / clear_caches() / gc) counts as non-trivial only if the '
                       'instrumented history process OBSERVED in it: an id() of a dead TypeHint reused by a new one, or two '
                       'non-== hints with the same repr reaching the repr table, or a checker/id-table cache hit, or an equal '
-                      'context-relative hint (typing.Self / relative forward reference) asked from a second class / caller scope')
+                      'context-relative hint (typing.Self / relative forward reference) asked from a second class / caller scope, '
+                      'or a callable whose string hints name the alias of a subscripted user generic (instance check and '
+                      'type[...] through one forward-reference proxy) called again after a passing call')
     rng = random.Random(seed)
     oracle = FreshOracle()
     t0 = time.time()
@@ -1002,7 +1076,8 @@ def explore(ck: Check, n: int, seed: int, n_table: int, n_truth: int, shrink_sec
         st = r['stats']
         for s_, v in st.items():
             agg[s_] = agg.get(s_, 0) + v
-        if st['id_reuse'] or st['repr_collision'] or st['checker_hit'] or st['id_hit'] or st.get('ctx_switch'):
+        if st['id_reuse'] or st['repr_collision'] or st['checker_hit'] or st['id_hit'] or st.get('ctx_switch') or \
+                st.get('generic_alias_recall'):
             nontrivial.add(json.dumps(histories[k]))
     ex.distinct_nontrivial = len(nontrivial)
     ex.extra.update({
@@ -1014,6 +1089,7 @@ def explore(ck: Check, n: int, seed: int, n_table: int, n_truth: int, shrink_sec
         'histories_with_repr_collision': sum(1 for r in results[:user_histories] if r['stats']['repr_collision']),
         'histories_with_cache_hit': sum(1 for r in results[:user_histories] if r['stats']['checker_hit'] or r['stats']['id_hit']),
         'histories_with_context_switch_on_equal_relative_hint': sum(1 for r in results[:user_histories] if r['stats'].get('ctx_switch')),
+        'histories_with_generic_alias_recalled_after_passing_call': sum(1 for r in results[:user_histories] if r['stats'].get('generic_alias_recall')),
         'forks': None})
     ex.samples = [{'history': [render(o) for o in h[:8]]} for h in histories[len(CORPUS):len(CORPUS) + 3]]
     # failures: shortest failing prefixes first; shrink, classify, report one per key
